@@ -119,4 +119,39 @@ def build(C):
         r == self.connection_manager_handle.closed, // @OBL NetworkInner::is_closed::mailbox_closed [C08] a network reports closed exactly when its connection manager is gone
 ''')
     t += '}\n'
+    # ---- the public handle (network/mod.rs `impl Network`): thin delegations, but the link every application call goes through ----
+    t += C.item(NET, 'struct Network', derives=False, rewrites=[('X5', 'Arc<NetworkInner>', 'NetworkInner', 1)])
+    t += 'impl Network {\n'
+    GENA = [dict(rule='X5', pattern='<A: Into<Address>>', repl=''), dict(rule='X5', pattern='addr: A', repl='addr: Address'), dict(rule='X5', pattern='addr.into()', repl='addr')]
+    MB = 'self.0.connection_manager_handle'
+    t += C.fn(NET, 'impl Network :: fn connect', 'Network::connect', ['C03', 'C08'], ret='r', sig_rewrites=[('&self', '&mut self')], rewrites=GENA, spec='''
+    ensures
+        old(self).0.connection_manager_handle.closed ==> r is Err, // @OBL Network::connect::closed_network_errors [C08] a dial on a network that has shut down fails
+        !old(self).0.connection_manager_handle.closed ==> final(self).0.connection_manager_handle.delivered@.len() == old(self).0.connection_manager_handle.delivered@.len() + 1
+            && final(self).0.connection_manager_handle.delivered@.last() is ConnectRequest && final(self).0.connection_manager_handle.delivered@.last()->ConnectRequest_0 == addr
+            && final(self).0.connection_manager_handle.delivered@.last()->ConnectRequest_1 is None, // @OBL Network::connect::asks_for_no_particular_identity [C03] a dial by address alone asks the manager for that address and names no identity
+''')
+    t += C.fn(NET, 'impl Network :: fn connect_with_peer_id', 'Network::connect_with_peer_id', ['C03', 'C08'], ret='r', sig_rewrites=[('&self', '&mut self')], rewrites=GENA, spec='''
+    ensures
+        old(self).0.connection_manager_handle.closed ==> r is Err, // @OBL Network::connect_with_peer_id::closed_network_errors [C08] a dial on a network that has shut down fails
+        !old(self).0.connection_manager_handle.closed ==> final(self).0.connection_manager_handle.delivered@.len() == old(self).0.connection_manager_handle.delivered@.len() + 1
+            && final(self).0.connection_manager_handle.delivered@.last() is ConnectRequest && final(self).0.connection_manager_handle.delivered@.last()->ConnectRequest_0 == addr
+            && final(self).0.connection_manager_handle.delivered@.last()->ConnectRequest_1 == Some(peer_id), // @OBL Network::connect_with_peer_id::asks_for_exactly_that_identity [C03] a dial that names the identity it expects asks the connection manager for exactly that identity at exactly that address (the manager pins the TLS verifier on it: ConnectionManager::dial_peer_task, Endpoint::connect_with_expected_peer_id)
+''')
+    t += C.fn(NET, 'impl Network :: fn disconnect', 'Network::disconnect', ['C09', 'C08'], ret='r', sig_rewrites=[('&self', '&mut self')], spec='''
+    ensures
+        old(self).0.active_peers.live ==> r is Ok && final(self).0.active_peers.set.0.view() =~~= rm_spec(old(self).0.active_peers.set.0.view(), peer, DisconnectReason::Requested), // @OBL Network::disconnect::is_the_inner_transition [C09] the public disconnect IS the removal with reason Requested
+        !old(self).0.active_peers.live ==> r is Err, // @OBL Network::disconnect::closed_network_errors [C09,C08] on a network that has shut down the call fails
+''')
+    t += C.fn(NET, 'impl Network :: fn shutdown', 'Network::shutdown', ['C08'], ret='r', sig_rewrites=[('&self', '&mut self')], spec='''
+    ensures
+        old(self).0.connection_manager_handle.closed ==> r is Err, // @OBL Network::shutdown::closed_network_errors [C08] shutting down a network that is already gone fails
+        !old(self).0.connection_manager_handle.closed ==> final(self).0.connection_manager_handle.delivered@.len() == old(self).0.connection_manager_handle.delivered@.len() + 1
+            && final(self).0.connection_manager_handle.delivered@.last() is Shutdown, // @OBL Network::shutdown::request_always_reaches_the_manager [C08] the public shutdown delivers its request to the connection manager
+''')
+    t += C.fn(NET, 'impl Network :: fn is_closed', 'Network::is_closed', ['C08'], ret='r', spec='''
+    ensures
+        r == self.0.connection_manager_handle.closed, // @OBL Network::is_closed::mailbox_closed [C08] a network reports closed exactly when its connection manager is gone
+''')
+    t += '}\n'
     return t
